@@ -200,6 +200,62 @@ func genOps(r *rng.R) []cop {
 	}
 }
 
+// genCycle is an upgrade / downgrade / re-open cycle of one open-owner on
+// one file while something else keeps the dropped access alive: a
+// lock-owner file (share reservation cloned by LOCK) and/or READ/WRITE
+// parked inside the file system (share reservation cloned for the I/O).
+// These are the states in which shareCount and the open state ID's own
+// share_access disagree.
+func genCycle(r *rng.R, c int) []hop {
+	ow, lo, f := r.Intn(3), r.Intn(3), r.Intn(3)
+	open := sidRef{K: "open", Ow: ow, F: f}
+	seq := func(ops []cop, plan []bool) hop {
+		return hop{K: "seq", C: c, Mode: "next", Slot: r.Intn(3), Cache: r.Chance(50), Ops: ops, Plan: plan}
+	}
+	var hs []hop
+	first := pick(r, uint32(3), 3, 3, 1, 2)
+	hs = append(hs, seq([]cop{{O: "putroot"}, {O: "open", Ow: ow, F: 1 + f, Acc: first, How: 1, Claim: "null"}}, nil))
+	rounds := 1 + r.Intn(2)
+	for k := 0; k < rounds; k++ {
+		holder := r.Intn(10)
+		if holder < 6 { // lock-owner file
+			off, ln := genRange(r)
+			hs = append(hs, seq([]cop{genPutFH(r, f), {O: "lock", New: true, Lo: lo, Lt: genLt(r), Off: off, Len: ln, Sid: &open}}, nil))
+		}
+		if holder >= 4 && holder < 9 { // I/O parked in the file
+			hs = append(hs, seq([]cop{{O: "putfh", F: f}, {O: pick(r, "write", "write", "read", "setattr"), Sid: &open}}, []bool{true}))
+		}
+		down := pick(r, uint32(1), 2, 1, 2, 3)
+		hs = append(hs, seq([]cop{{O: "putfh", F: f}, {O: "downgrade", Sid: &open, Acc: down}}, nil))
+		if r.Chance(25) {
+			hs = append(hs, hop{K: "resume", T: r.Intn(3)})
+		}
+		re := pick(r, uint32(1), 2, 3, 3-down, 3-down)
+		if re == 0 {
+			re = 3
+		}
+		if r.Chance(70) {
+			hs = append(hs, seq([]cop{{O: "putroot"}, {O: "open", Ow: ow, F: 1 + f, Acc: re, How: pick(r, 0, 0, 1), Claim: "null"}}, nil))
+		} else {
+			hs = append(hs, seq([]cop{{O: "putfh", F: f}, {O: "open", Ow: ow, Acc: re, Claim: pick(r, "fh", "fh", "prev")}}, nil))
+		}
+		switch r.Intn(5) {
+		case 0:
+			hs = append(hs, seq([]cop{{O: "putfh", F: f}, {O: "locku", Off: 0, Len: math.MaxUint64, Sid: &sidRef{K: "lock", Lo: lo, F: f}}}, nil))
+			hs = append(hs, seq([]cop{{O: "free", Sid: &sidRef{K: "lock", Lo: lo, F: f}}}, nil))
+		case 1, 2:
+			hs = append(hs, hop{K: "resume", T: r.Intn(3)})
+		}
+	}
+	if r.Chance(80) {
+		hs = append(hs, seq([]cop{{O: "putfh", F: f}, {O: "close", Sid: &open}}, nil))
+	}
+	if r.Chance(50) {
+		hs = append(hs, hop{K: "resume", T: 0})
+	}
+	return hs
+}
+
 func (area) Generate(r *rng.R, thorough bool, index int) json.RawMessage {
 	h := history{Lease: uint64(1000 * (1 + r.Intn(4))), Slots: uint32(1 + r.Intn(3)), MaxOps: uint32(4 + r.Intn(5))}
 	nclients := 1 + r.Intn(3)
@@ -233,6 +289,16 @@ func (area) Generate(r *rng.R, thorough bool, index int) json.RawMessage {
 			needReg[c] = false
 			h.Ops = append(h.Ops, hop{K: "solo", C: c, What: "exid"})
 			h.Ops = append(h.Ops, hop{K: "solo", C: c, What: "cs"})
+		}
+		if !vanished[c] && r.Chance(9) {
+			// share-count cycle, interleaved with other clients' requests
+			for _, ch := range genCycle(r, c) {
+				h.Ops = append(h.Ops, ch)
+				if nclients > 1 && r.Chance(20) {
+					h.Ops = append(h.Ops, hop{K: "seq", C: (c + 1) % nclients, Mode: "next", Slot: r.Intn(3), Cache: r.Chance(50), Ops: genOps(r)})
+				}
+			}
+			continue
 		}
 		switch x := r.Intn(100); {
 		case x < 4:
